@@ -1187,8 +1187,10 @@ class Interp:
             return Lin(qt, rest.c // c), Lin.const(rest.c % c)
         sa_ = rest.single_atom()
         if sa_ and sa_[1] == 1 and sa_[2] == 0 and sa_[0][0] == "bits" and len(sa_[0]) == 4 and isinstance(sa_[0][2], int) \
-                and c & (c - 1) == 0 and c.bit_length() - 1 <= sa_[0][3]:
+                and c & (c - 1) == 0 and c.bit_length() - 1 <= sa_[0][3] and st.aset(sa_[0]).size() > 64:
             # a transmitted bit field split by hand (`b0 >> 2`, `b0 & 3`): its upper / lower bits
+            # (a field with few values - a 3-bit time-out tested for parity - keeps its remainder
+            # as a function of the field, so that the test constrains the field itself)
             _, buf, pos, n = sa_[0]
             k = c.bit_length() - 1
             hi = Lin.atom(("bits", buf, pos, n - k)) if n - k > 0 else Lin.const(0)
